@@ -380,6 +380,46 @@ func TestC19_Search(t *testing.T) {
 				idx.CmdEmbeddings[i] = v
 			}
 		}
+		if nEmb > 0 && rapid.IntRange(0, 2).Draw(t, "reloaded-from-files") == 0 {
+			// the same long-lived index, its command embeddings read from a file and then read AGAIN from a
+			// regenerated file of the same shape whose rows have other magnitudes and which is often cut
+			// off after some rows (the second load then fails half-way): whatever rows the index is left
+			// with, the stage still only raises scores, by the bounded factor
+			encode := func(rows [][]float32, scale float32, cut int) []byte {
+				buf := make([]byte, 8, 8+len(rows)*dim*4)
+				binary.LittleEndian.PutUint32(buf[0:], uint32(len(rows)))
+				binary.LittleEndian.PutUint32(buf[4:], uint32(dim))
+				for _, r := range rows {
+					for _, x := range r {
+						buf = binary.LittleEndian.AppendUint32(buf, math.Float32bits(x*scale))
+					}
+				}
+				if cut >= 0 && cut < len(buf) {
+					buf = buf[:cut]
+				}
+				return buf
+			}
+			fa := gen.TempPath(".emb")
+			defer os.Remove(fa)
+			os.WriteFile(fa, encode(idx.CmdEmbeddings, 1, -1), 0o644)
+			errA := idx.LoadCommandEmbeddings(fa)
+			db.SearchUniversal(q, opt)
+			scale := rapid.SampledFrom([]float32{1, 8, 100, 0.01, 3}).Draw(t, "reload-scale")
+			cut := -1
+			if rapid.IntRange(0, 3).Draw(t, "reload-cut") > 0 {
+				cut = 8 + rapid.IntRange(0, nEmb*dim*4-1).Draw(t, "reload-cut-at")
+			}
+			next := make([][]float32, nEmb)
+			for i := range next {
+				next[i] = rapid.SliceOfN(comp, dim, dim).Draw(t, "ce3")
+			}
+			os.WriteFile(fa, encode(next, scale, cut), 0o644)
+			errB := idx.LoadCommandEmbeddings(fa)
+			if errA != nil || (cut < 0 && errB != nil) || (cut >= 0 && errB == nil) {
+				t.Fatalf("command embeddings file: complete file -> %v, regenerated file (cut at %d of %d bytes) -> %v", errA, cut, 8+nEmb*dim*4, errB)
+			}
+			rec.Label("index-reloaded-from-files")
+		}
 		with := db.SearchUniversal(q, opt)
 		// the stage leaves nothing behind: asking again gives the same answer, and without the index the old one
 		for rep := rapid.IntRange(0, 2).Draw(t, "asked-again"); rep > 0; rep-- {
